@@ -125,6 +125,14 @@ def run_rules(ctx, chk):
     chk.ob('C11.P1', 'all-65536:covered', covered == 65536, where0, '%d of 65536 start values decided (%s)' % (covered, classes), nontrivial=False)
     chk.tables['start_classes'] = classes
 
+    # ---- P7 the protocol is the same in the build that ships: nothing with an effect sits inside a `debug_assert!` of the
+    # shm crate (an odd-generation store written as `debug_assert!(gen.compare_exchange(..).is_ok())` exists in debug builds
+    # only: the release writer copies the record under an even generation)
+    shm_bodies = list(fb.bodies(common.SHM))
+    hz = common.debug_only_effects(fb, shm_bodies)
+    chk.analysed['functions'] |= {b.path for b in shm_bodies if any(mir.is_from_macro(blk['tspan'], names=common.DEBUG_ONLY_MACROS) for blk in b.blocks)}
+    chk.ob('C11.P7', 'debug-assertions-are-free-of-effects', not hz, hz[0][2] if hz else where0,
+           'calls with an effect inside a debug_assert! of the shm crate: %s' % ([(b_.path.split('::')[-1], w_, n_.split('::')[-1]) for b_, _, w_, n_ in hz][:3] or 'none'))
     # ---- P5 who may store the generation / version
     n_sites = 0
     writers = {}
